@@ -50,6 +50,7 @@ def node_case(draw):
         cs['export'] = not (i == n - 1 and n > 1 and draw(st.integers(0, 3)) == 0)
         cs['base'] = draw(st.sampled_from(['Module', 'Module', 'Readable', 'Writable', 'Drivable']))
         cs['feature'] = draw(st.integers(0, 3)) == 0
+        cs['indirect'] = draw(st.integers(0, 2)) == 0
         classes.append(cs)
     return {'kind': 'node', 'classes': classes, 'seed': draw(st.integers(0, 1 << 30))}
 
@@ -154,6 +155,7 @@ def check_node(ctx, case, nprobes=45):
                 ctx.finding('describe:command-datainfo', case, f'{info!r} vs {exp!r}')
             else:
                 ctx.ok('describe-command')
+            check_command(ctx, case, kit, conn, mname, c, wire, info, nprobes)
     # --- global activation never shows undescribed things, every update importable
     conn2 = FakeConn('a')
     r = kit.request(conn2, ('activate', None, None))
@@ -289,6 +291,47 @@ def check_param(ctx, case, kit, conn, mname, p, wire, desc, rec, nprobes):
             ctx.ok('datainfo-verdict-agrees')
         if accepted:
             importable(ctx, dict(sub, x=x), cdt, r[2][0], 'changed', T)
+
+
+def check_command(ctx, case, kit, conn, mname, c, wire, info, nprobes):
+    """the described argument datainfo accepts and rejects what the node executes and refuses"""
+    from frappy.datatypes import get_datatype
+    spec = f'{mname}:{wire}'
+    sub = {'kind': 'node', 'classes': case['classes'], 'focus': spec}
+    A = c.get('arg')
+    if A is None:
+        probes = [('null', None), ('zero', 0), ('0.0', 0.0), ('false', False), ('empty-str', ''), ('empty-list', []),
+                  ('empty-dict', {}), ('one', 1), ('str', 'x'), ('list', [1]), ('true', True)]
+        adt = None
+    else:
+        try:
+            adt = get_datatype(info['argument'], wire)
+        except Exception as e:   # noqa
+            ctx.finding('describe:argument-not-rebuildable', sub, repr(e))
+            return
+        cat = specs.catalogue(A, 'wire', 0, rm.to_wire(A, rm.default_value(A)))
+        probes = cat[::max(1, len(cat) // nprobes)]
+    for label, x in probes:
+        if A is not None and partial_without_prev(A, x, None, True):
+            continue
+        ctx.ev()
+        r = kit.request(conn, ('do', spec, x))
+        executed = r[0] == 'done'
+        if adt is None:
+            described_ok = x is None
+            why = 'no-argument'
+        else:
+            try:
+                adt.validate(adt.import_value(x))
+                described_ok = True
+            except Exception:   # noqa
+                described_ok = False
+            why = rm.status(A, x, 'wire')[1] or 'valid'
+        if executed != described_ok:
+            ctx.finding(f'command:verdict-differs:{why}' + (f':{label}' if adt is None else ''), dict(sub, x=x),
+                        f'do {spec} {x!r}: node {"executes" if executed else r[2][:2]}, described datainfo {"accepts" if described_ok else "rejects"}')
+        else:
+            ctx.ok('command-verdict-agrees')
 
 
 def importable(ctx, sub, cdt, j, where, T):
